@@ -38,6 +38,11 @@ MUTANTS = [
     # C01 extract_contractions: children swapped in the schedule, recipe of another node
     ("vt.contracts.extract_schedule", "extract_contractions", "cotengra/contract.py", "(p, l, r, False, tree.get_einsum_eq(p), None)", "(p, r, l, False, tree.get_einsum_eq(p), None)"),
     ("vt.contracts.extract_schedule", "extract_contractions", "cotengra/contract.py", "(p, l, r, False, tree.get_einsum_eq(p), None)", "(p, l, r, False, tree.get_einsum_eq(l), None)"),
+    # C05 processor bookkeeping: completion loop stops early, a step recorded wrongly, an id reused, a node not removed
+    ("vt.contracts.processor_nodes", "optimize_remaining_by_size", "cotengra/pathfinders/path_basic.py", "        while len(nodes_sizes) > 1:", "        while len(nodes_sizes) > 2:"),
+    ("vt.contracts.processor_nodes", "contract_nodes", "cotengra/pathfinders/path_basic.py", "        self.ssa_path.append((i, j))", "        self.ssa_path.append((i, i))"),
+    ("vt.contracts.processor_nodes", "add_node", "cotengra/pathfinders/path_basic.py", "        self.ssa += 1\n        self.nodes[i] = legs", "        self.nodes[i] = legs"),
+    ("vt.contracts.processor_nodes", "pop_node", "cotengra/pathfinders/path_basic.py", "        legs = self.nodes.pop(i)", "        legs = self.nodes[i]"),
     # C09 DP step: the seeded early sieve on the children's scores, a table update that can make an entry worse, a lost update
     ("vt.contracts.dp_step", "optimize_optimal_connected", "cotengra/pathfinders/path_basic.py", "                        # do sorted simultaneous iteration over ilegs and jlegs", "                        if iscore + jscore > cost_cap:\n                            continue"),
     ("vt.contracts.dp_step", "optimize_optimal_connected", "cotengra/pathfinders/path_basic.py", "if (current is None) or (new_score < current[1]):", "if True:"),
